@@ -238,7 +238,7 @@ class ShortJump(X86Instruction):
 
     tokens = [OpcodeToken, Imm8Token]
     target = Operand("target", str)
-    syntax = Syntax(["jmpshort", target])
+    syntax = Syntax(["jmpshort", " ", target])
     patterns = {"opcode": 0xEB}
 
     def relocations(self):
